@@ -225,6 +225,70 @@ fn vec_reserve_any() {
     kani::cover!(true, "END: harness ran to completion");
 }
 
+/// BumpVec<u8> shrink paths (shrink_to_fit / shrink_to / into_boxed_slice) when MIN_ALIGN > align_of::<T>():
+/// the bump position stays a multiple of MIN_ALIGN (C10), contents survive, the next block is disjoint and aligned
+fn shrink_min_align<St: BumpAllocatorSettings>()
+where
+    VA: BaseAllocator<St::GuaranteedAllocated>,
+{
+    set_budget(1);
+    let Ok(bump) = Bump::<VA, St>::try_new() else { return };
+    set_budget(0);
+    let cap0: usize = kani::any();
+    kani::assume(cap0 >= 1 && cap0 <= 12);
+    let Ok(mut v) = BumpVec::<u8, _>::try_with_capacity_in(cap0, &bump) else { return };
+    let vals: [u8; 3] = kani::any();
+    let n: usize = kani::any();
+    kani::assume(n <= 3 && n <= v.capacity());
+    let mut k = 0;
+    while k < 3 {
+        if k < n {
+            assert!(v.try_push(vals[k]).is_ok(), "push within capacity");
+        }
+        k += 1;
+    }
+    let op: u8 = kani::any();
+    kani::assume(op < 3);
+    let (p, len) = match op {
+        0 => {
+            v.shrink_to_fit();
+            assert!(v.capacity() >= v.len(), "C08: capacity < len after shrink_to_fit");
+            let r = (v.as_ptr() as usize, v.len());
+            core::mem::forget(v);
+            r
+        }
+        1 => {
+            let m: usize = kani::any();
+            v.shrink_to(m);
+            assert!(v.capacity() >= v.len() && (v.capacity() >= m || v.capacity() >= cap0.min(m)), "C08: capacity after shrink_to");
+            let r = (v.as_ptr() as usize, v.len());
+            core::mem::forget(v);
+            r
+        }
+        _ => {
+            let b = v.into_boxed_slice();
+            let r = (b.as_ptr() as usize, b.len());
+            core::mem::forget(b);
+            r
+        }
+    };
+    assert!(len == n, "C08: shrinking changed the length");
+    let cur = bump.stats().current_chunk().unwrap();
+    assert!(addr(cur.bump_position()) % St::MIN_ALIGN == 0, "C10: bump position is not a multiple of the minimum alignment after shrinking a vector");
+    kani::cover!(op == 0 && n == 2 && cap0 == 7, "shrink_to_fit 7 -> 2");
+    let w = Win::of(cur);
+    if n > 0 {
+        assert!(unsafe { w.read(p) } == vals[0] && unsafe { w.read(p + n - 1) } == vals[n - 1], "C02/C08: shrinking changed the contents");
+    }
+    // the next allocation is aligned to MIN_ALIGN-or-better and disjoint from the vector's elements
+    if let Ok(q) = bump.try_alloc_uninit::<u8>() {
+        let q = q.into_raw().as_ptr() as usize;
+        assert!(disjoint(q, 1, p, n), "C01: allocation after shrinking overlaps the vector's elements");
+    }
+    core::mem::forget(bump);
+    kani::cover!(true, "END: harness ran to completion");
+}
+
 macro_rules! h {
     ($name:ident, $body:expr) => {
         #[kani::proof]
@@ -248,3 +312,6 @@ h!(vec_push_grow_drops_up1_newchunk, push_grow_drops::<S<1, true>, 11>(1));
 h!(vec_split_independent_up1, split_independent::<S<1, true>>(0));
 h!(vec_split_independent_down1, split_independent::<S<1, false>>(0));
 h!(vec_split_independent_up1_b1, split_independent::<S<1, true>>(1));
+h!(vec_shrink_min_align_down8, shrink_min_align::<S<8, false>>());
+h!(vec_shrink_min_align_up4, shrink_min_align::<S<4, true>>());
+h!(vec_shrink_min_align_down1, shrink_min_align::<S<1, false>>());
